@@ -221,6 +221,7 @@ def extra_obligations(mods, tier, seed):
     ob("sanitize/env-names-ini-safe", not unsafe, "env name of every registered board matches [A-Za-z0-9_]+ (exhaustive)", t0,
        {"bad": unsafe[:10]})
     _ini_readback(m, tier, seed, out, ob)
+    _regenerate_and_frame(m, out)
     return out
 
 
@@ -305,6 +306,93 @@ def _ini_readback(m, tier, seed, out, ob):
         out.append({"name": "C13/bounded/ini-readback/blank-padded-port", "status": "sat", "backend": "bounded-native",
                     "where": "a port with leading/trailing blanks is written verbatim and read back stripped",
                     "time": 0.0, "bounded": True, "replay": known_region[:3], "replay_confirmed": True})
+
+
+_AUDIT = {"on": False, "events": [], "installed": False}
+
+
+def _audit_hook(event, args):
+    if not _AUDIT["on"]:
+        return
+    try:
+        if event == "open":
+            path, mode, flags = args[0], args[1], args[2]
+            import os as _os
+            writing = (isinstance(mode, str) and any(c in mode for c in "wax+")) or (isinstance(flags, int) and flags & (_os.O_WRONLY | _os.O_RDWR | _os.O_CREAT | _os.O_TRUNC))
+            if writing and isinstance(path, (str, bytes)) or writing and hasattr(path, "__fspath__"):
+                _AUDIT["events"].append(("open-for-writing", str(path)))
+        elif event in ("os.rename", "os.remove", "os.mkdir", "os.rmdir", "os.link", "os.symlink", "os.truncate", "os.chmod", "shutil.move", "shutil.copyfile", "tempfile.mkstemp", "tempfile.mkdtemp"):
+            for a in args[:2]:
+                if isinstance(a, (str, bytes)) or hasattr(a, "__fspath__"):
+                    _AUDIT["events"].append((event, str(a if not isinstance(a, bytes) else a.decode("utf-8", "replace"))))
+    except Exception:
+        pass
+
+
+def _regenerate_and_frame(m, out):
+    """BOUNDED, executed on the real write_project: (1) generating into a project directory that already holds an older main.cpp /
+    platformio.ini leaves exactly the new bytes; (2) every file-system write of the call (audit events: open for writing, rename, remove,
+    mkdir, mkstemp ...) names a path inside the project directory"""
+    import shutil
+    import sys
+    import tempfile
+    import time
+    import configparser
+    from pathlib import Path
+    t0 = time.time()
+    board = sorted(m.BOARD_TO_PLATFORM)[0]
+    plat = m.BOARD_TO_PLATFORM[board]
+    NEW = "line1\nline2\nvoid setup(){}\n"
+    OLD = {"same-text-crlf": NEW.replace("\n", "\r\n").encode(), "same-text-cr": NEW.replace("\n", "\r").encode(), "same-text": NEW.encode(), "other-text": b"int old;\n",
+           "longer-text": (NEW + "// trailing old text\n").encode(), "invalid-utf8": b"\xff\xfe old \x80\n", "empty": b"", "utf8-bom": b"\xef\xbb\xbf" + NEW.encode()}
+    bad_regen, bad_frame = [], []
+    if not _AUDIT["installed"]:
+        sys.addaudithook(_audit_hook)
+        _AUDIT["installed"] = True
+    base = Path(tempfile.mkdtemp(prefix="c13-regen-"))
+    try:
+        for new_src in (NEW, NEW.replace("\n", "\r\n")):
+            for oname, old_bytes in OLD.items():
+                d = base / f"{oname}-{len(new_src)}"
+                (d / "src").mkdir(parents=True)
+                (d / "src" / "main.cpp").write_bytes(old_bytes)
+                (d / "platformio.ini").write_text("[env:old]\nplatform = oldplat\nboard = oldboard\nframework = arduino\nupload_port = OLDPORT\nlib_deps =\n  OldLib\n", encoding="utf-8")
+                _AUDIT["events"] = []
+                _AUDIT["on"] = True
+                try:
+                    m.write_project(d, new_src, "COM7", platform=plat, board=board, lib_deps=["Servo"])
+                    err = None
+                except Exception as ex:
+                    err = f"{type(ex).__name__}: {ex}"
+                finally:
+                    _AUDIT["on"] = False
+                case = {"existing_main_cpp": oname, "new_source": new_src}
+                if err:
+                    bad_regen.append(dict(case, problem="write_project raised " + err))
+                    continue
+                got = (d / "src" / "main.cpp").read_bytes()
+                if got != new_src.encode("utf-8"):
+                    bad_regen.append(dict(case, problem=f"src/main.cpp holds {got[:60]!r}, the given source is {new_src.encode()[:60]!r}"))
+                cp = configparser.RawConfigParser()
+                cp.read(d / "platformio.ini", encoding="utf-8")
+                secs = cp.sections()
+                if len(secs) != 1 or cp.get(secs[0], "upload_port", fallback=None) != "COM7" or cp.get(secs[0], "board", fallback=None) != board:
+                    bad_regen.append(dict(case, problem=f"platformio.ini still describes {secs} / port {cp.get(secs[0], 'upload_port', fallback=None) if secs else None}"))
+                root = str(d.resolve())
+                outside = [e for e in _AUDIT["events"] if not str(Path(e[1]).resolve() if not e[1].startswith("<") else e[1]).startswith(root)]
+                if outside:
+                    bad_frame.append(dict(case, writes_outside_the_project=outside[:4]))
+                elif not any(e[1].endswith("platformio.ini") or ".ini" in e[1] for e in _AUDIT["events"]):
+                    bad_frame.append(dict(case, harness="the audit hook observed no write of platformio.ini (vacuous observation)", events=_AUDIT["events"][:6]))
+    finally:
+        _AUDIT["on"] = False
+        shutil.rmtree(base, ignore_errors=True)
+    out.append({"name": "C13/bounded/regenerate-into-existing-project", "status": "discharged" if not bad_regen else "sat", "backend": "bounded-native", "bounded": True,
+                "where": f"{2 * len(OLD)} regenerations over an existing project (older main.cpp with other line terminators / text / encoding, older platformio.ini): afterwards src/main.cpp is the given "
+                         "source byte for byte and platformio.ini describes the new port and board", "time": round(time.time() - t0, 3), "replay": bad_regen[:3], "replay_confirmed": bool(bad_regen)})
+    out.append({"name": "C13/bounded/writes-stay-inside-the-project", "status": "discharged" if not bad_frame else "sat", "backend": "bounded-native", "bounded": True,
+                "where": "every file-system write of write_project observed through audit events (open for writing, rename, remove, mkdir, mkstemp) names a path inside the project directory",
+                "time": 0.0, "replay": bad_frame[:3], "replay_confirmed": bool(bad_frame)})
 
 
 def extra_evidence():
